@@ -150,11 +150,11 @@ type MemMetadata struct {
 	// (slow store) and return an error (rejected store). n is the 1-based call index.
 	OnSave func(n int, state map[uint16]*models.CheckpointDocument, dirty map[uint16]bool) error
 	// OnLoad may return an error to fail the load.
-	OnLoad func(vbIds []uint16) error
-	mu     sync.Mutex
-	store  map[uint16]models.CheckpointDocument
-	saves  int
-	writes int // number of per-vBucket writes applied
+	OnLoad    func(vbIds []uint16) error
+	mu        sync.Mutex
+	store     map[uint16]models.CheckpointDocument
+	saves     int
+	writes    int // number of per-vBucket writes applied
 	SaveCalls []SaveCall
 }
 
